@@ -154,7 +154,12 @@ def to_instance(gen, t, v, texp=None, memo=None):
         return leaf_native(t['of']['p'], v[1])
     if k == 'any':
         from lxml import etree
-        return etree.fromstring(E.TREES[v[1]])
+        if memo is not None and ('any', v[1]) in memo:
+            return memo[('any', v[1])]          # ONE tree object wherever the value occurs
+        x = etree.fromstring(E.TREES[v[1]])
+        if memo is not None:
+            memo[('any', v[1])] = x
+        return x
     if k == 'arr':
         return [to_instance(gen, t['of'], x, memo=memo) for x in v[1]]
     if k == 'obj':
